@@ -98,6 +98,11 @@ CLAIMED = {
    note="Trusted: Coq kernel, extraction, harness, table translator; directive values are oracles of the renderer theorem (validated separately); time/user-name directives not covered.",
    technique="Coq proof (parse-of-print = reference rendering, by induction with a literal accumulator) + differential correspondence",
    design="5 C16"),
+ "C11": dict(
+   text="Coq theorems about the argv-level layer of build_matcher_tree over the table of primaries regenerated from the source (operand counts, kinds, action flags): whatever is accepted is lexically valid and a sentence of the expression grammar (composition with C01's soundness); unknown primaries, missing operands, invalid operands, -exec without terminator, dangling operators, '!' without operand, unbalanced and empty parentheses are rejected. The model has no panic outcome; that the implementation never panics or hangs, and that a rejected command line has no effect, is established on every run by the correspondence check: thousands of argument vectors (sentences and mutations over the full vocabulary, operands from valid values, near-misses and arbitrary strings) in-process under catch_unwind with sandbox snapshots, the real binary for a sample, and actions on entries with unknown owners or removed by an earlier action. One known finding (-newerXY recognised by an unanchored pattern).",
+   note="Partial: panic/hang freedom is exercised, not proved. Operand validators inside dependencies (Oniguruma, uucore::mode, passwd/group lookups, chrono) are oracles answered by the dependencies themselves or the OS; -fprint* create their target at parse time (as GNU find does).",
+   technique="Coq proof (lexer lemmas + C01 soundness; tables regenerated from source) + differential correspondence under catch_unwind",
+   design="5 C11"),
 }
 ALL = ["C%02d" % i for i in range(1, 21)]
 def main():
